@@ -56,6 +56,11 @@ def make_case(seed, idx, tier):
         prof.update({"n_levels": 2 + (idx // 8) % 2, "leaf": ["cma_warm", "cma_stds", "cma_warm"][(idx // 8) % 3], "sprout": ["simple", "nbc"][(idx // 8) % 2], "level_limit": 2,
                      "lscs": ["dontstop", "melimit"], "gsc": "melimit", "root": ["sea", "de", "shade", "sea_cx"][(idx // 8) % 4], "inner": ["sea", "de"][(idx // 16) % 2],
                      "fams": ["rastrigin", "funnel", "sphere"], "stacks": False})
+    big_de = idx % 16 == 15
+    if big_de:
+        # DE / SHADE populations well above 32 individuals (sizes at which vectorised donor selection or numpy itself take other code paths)
+        prof.update({"n_levels": 2, "root": ["de", "shade", "de_dither"][(idx // 16) % 3], "leaf": ["shade", "de"][(idx // 16) % 2], "sprout": "simple", "level_limit": 2,
+                     "lscs": ["dontstop"], "gsc": "melimit", "fams": ["rastrigin", "sphere"], "stacks": False})
     multi = idx % 8 == 3
     if multi:
         # several demes sprouted onto one level in the same metaepoch, on a level whose engine consumes the seed it is handed
@@ -77,6 +82,11 @@ def make_case(seed, idx, tier):
         d["options"]["random_seed"] = 2**32 - 2
         d["sprout"]["far"] = 1e-9
         d["gsc"] = {"k": "melimit", "n": 4}
+    if big_de and d.get("kind", "tree") != "minimize":
+        d["levels"][0]["pop"] = 40
+        d["levels"][1]["pop"] = 36
+        d["gsc"] = {"k": "melimit", "n": 3}
+        d["force_subprocess"] = True
     d["c14"] = True
     if idx % 4 == 2:
         # the run carried out in pieces through the public stepping methods (run_step() a few times, then run()) - or wholly by hand
@@ -231,6 +241,8 @@ def run_case(desc):
         cov["cma_deme_handed_the_largest_seed_numpy_accepts"] += 1
     if desc.get("steps_before_run") or desc.get("entry") == "hand":
         cov["seeded_runs_carried_out_through_the_stepping_methods"] += 1
+    if any(lv.get("engine") in ("de", "de_dither", "shade") and lv.get("pop", 0) >= 32 for lv in desc["levels"]):
+        cov["descriptors_with_a_de_or_shade_population_of_32_or_more"] += 1
     if n_demes >= 2:
         cov["descriptors_with_2_demes"] += 1
     if len(desc["levels"]) >= 3:
